@@ -699,10 +699,16 @@ func c07responseWriter(x *X, serve *ast.FuncDecl) {
 	fwd, rec := false, false
 	fieldCall := regexp.MustCompile(`^call recv\.\w+\.WriteHeader\(code\)$`)
 	fieldStore := regexp.MustCompile(`^store recv\.\w+ = code$`)
+	codeChanged := false
 	for _, e := range wh {
+		// the code that is passed on is the code that was given: no store to the parameter anywhere in the method
+		if strings.Contains(e, "store code ") {
+			codeChanged = true
+		}
 		fwd = fwd || fieldCall.MatchString(e)
 		rec = rec || fieldStore.MatchString(e)
 	}
+	fwd = fwd && !codeChanged
 	x.defBool("rwWriteHeaderForwards", fwd)
 	x.defBool("rwWriteHeaderRecords", rec)
 	x.defStrList("rwWriteHeaderEvents", wh)
